@@ -19,46 +19,7 @@ import N0Verif.Proofs.XPathTermPlain
 namespace N0.XPath
 open N0 N0.Py N0.Val
 
-/-- a potential: height of the current node → pieces of `found` → fuel -/
-abbrev TermPotF := Nat → Nat → Nat
-
 def TermMono (C : TermPotF) : Prop := ∀ h h' g g', h ≤ h' → g ≤ g' → C h g ≤ C h' g'
-
-/-- fuel for re-resolving a `found` text of `g` pieces from `self` (stage 1) -/
-def termR (H W g : Nat) : Nat := (W + 4) * H + 2 * g + 1
-
-def termNil (H W : Nat) : TermPotF := fun _ g => termR H W g + 1
-
-/-- `..` (no index), then `C` -/
-def termU0 (H W : Nat) (C : TermPotF) : TermPotF := fun _ g => 1 + max (termR H W g) (C (H + 1) (g + 2 * H))
-
-/-- a token without a name, then `C` -/
-def termZ (H W : Nat) : Nat → TermPotF → Nat → Nat
-  | 0, C, g => (W + 4) + C 0 (g + 1)
-  | h + 1, C, g =>
-    max ((W + 4) + C (h + 1) (g + 1)) (max ((W + 4) + termZ H W h C (g + 1)) (1 + termZ H W h (termU0 H W C) (g + 1)))
-
-/-- a name token other than `..`, then `C` -/
-def termN (H W : Nat) : Nat → TermPotF → Nat → Nat
-  | 0, _, _ => 1
-  | h + 1, C, g => max ((W + 4) + termN H W h C (g + 1)) (1 + termZ H W h C (g + 1))
-
-/-- `..[s]`, then `C` -/
-def termU (H W : Nat) (C : TermPotF) : TermPotF :=
-  fun _ g => 1 + max (termR H W g) (termZ H W (H + 1) C (g + 2 * H))
-
-def termTokPot (H W : Nat) (tok : Str) (C : TermPotF) : TermPotF :=
-  match splitNameIndex tok with
-  | .error _ => fun _ _ => 1
-  | .ok (name, idx) =>
-    if name.isEmpty then fun h g => termZ H W h C g
-    else if name = ['.', '.'] then (if idx.truthy then termU H W C else termU0 H W C)
-    else fun h g => termN H W h C g
-
-/-- **the fuel bound** for a token list -/
-def termPot (H W : Nat) : List Str → TermPotF
-  | [] => termNil H W
-  | t :: ts => termTokPot H W t (termPot H W ts)
 
 /-! ### monotonicity -/
 
